@@ -66,7 +66,10 @@ apply(change)
 rc, res, log = run_tests("-p %s %s %s" % (crate, SEL, filt))
 ran2 = {k: v for k, v in res.items() if v != "ignored"}
 meta["demo_with_change"] = ran2
-assert any(v == "FAILED" for v in ran2.values()), "demo does not fail with the change: %s\n%s" % (ran2, log[-2000:])
+aborted = rc != 0 and ("SIGABRT" in log or "overflowed its stack" in log or "SIGSEGV" in log)
+if aborted:
+    meta["demo_with_change"] = {"(test process)": "aborted: " + ("stack overflow" if "overflowed its stack" in log else "signal")}
+assert aborted or any(v == "FAILED" for v in ran2.values()), "demo does not fail with the change: %s\n%s" % (ran2, log[-2000:])
 # 3. suite with the change only
 if not skip_suite:
     base_path = "/tmp/confirm_baseline.json"
